@@ -143,6 +143,11 @@ pub struct GenCfg {
     pub sync_main: bool,
     /// debugging / probing: always use this native-matrix template
     pub force_matrix: Option<usize>,
+    /// orders issued in a batch through a native (`[..].map(order)`), markers awaited later
+    pub f_batch_orders: bool,
+    /// ... or never awaited at all (the run then ends Suspended -> Done and its completion value
+    /// is not reported: only driver comparisons use this)
+    pub f_batch_unawaited: bool,
 }
 
 impl GenCfg {
@@ -175,6 +180,8 @@ impl GenCfg {
             f_break: true,
             sync_main: false,
             force_matrix: None,
+            f_batch_orders: on(0.6),
+            f_batch_unawaited: false,
         }
     }
 }
@@ -274,9 +281,9 @@ pub const SHOW_PRELUDE: &str = r#"function __show(v: any, d: number = 0, seen: a
 pub fn hole_prelude(variant: HoleVariant, answers: &BTreeMap<String, Answer>) -> String {
     match variant {
         HoleVariant::Order => {
-            "import { order } from \"tsrun:host\";\nconst __h = (k: number): any => order({ k: k });".to_string()
+            "import { order } from \"tsrun:host\";\nconst __h = (k: number): any => order({ k: k });\nconst __hm: any = order;".to_string()
         }
-        HoleVariant::OrderDirect => "import { order as __h } from \"tsrun:host\";".to_string(),
+        HoleVariant::OrderDirect => "import { order as __h } from \"tsrun:host\";\nconst __hm: any = __h;".to_string(),
         HoleVariant::Sync | HoleVariant::Promise => {
             // table-driven stub: identical data, no suspension
             let mut s = String::from("const __h = (k: number): any => {\n  switch (k) {\n");
@@ -300,7 +307,7 @@ pub fn hole_prelude(variant: HoleVariant, answers: &BTreeMap<String, Answer>) ->
                 };
                 s.push_str(&format!("    case {}: {}\n", k, arm));
             }
-            s.push_str("    default: return null;\n  }\n};");
+            s.push_str("    default: return null;\n  }\n};\nconst __hm = (p: any): any => __h(p.k);");
             s
         }
     }
@@ -1724,6 +1731,36 @@ impl<'a> Gen<'a> {
                         "}} }} catch ({e}: any) {{ __log.push(\"tf:\" + __show({e}.code) + \":\" + String({e}.message) + \":\" + String({e} instanceof RangeError));"
                     )));
                     return Node::block("try {", kids, "}");
+                }
+                93 if self.in_async && self.holes_left >= 2 && self.cfg.f_batch_orders => {
+                    // several orders issued in one go through a native (`[..].map(order)`): the
+                    // program gets markers back and awaits them later, in some order, or never
+                    let n = 2 + self.rng.below(2).min(self.holes_left - 2);
+                    let mut keys = Vec::new();
+                    for _ in 0..n {
+                        self.holes_left -= 1;
+                        self.hole_id += 1;
+                        let k = self.hole_id;
+                        let r = self.rng.below(100);
+                        // KF-C07-6 (open) quarantine: a marker answered with a host promise yields the promise
+                        // itself when awaited, so batch answers are immediate
+                        let ans = if r < 8 { Answer::Undefined } else { Answer::Value(json!(k * 10 + 9)) };
+                        self.answers.insert(k.to_string(), ans);
+                        keys.push(k);
+                    }
+                    self.tag("batch-orders");
+                    let b = self.fresh("bm");
+                    let nn = self.fresh("n");
+                    let lits: Vec<String> = keys.iter().map(|k| format!("{{ k: {} }}", k)).collect();
+                    let junk = if self.rng.chance(0.5) { " const junk: any[] = [{}, [1, 2], { z: 1 }];" } else { "" };
+                    let tail = match self.rng.below(if self.cfg.f_batch_unawaited { 4 } else { 3 }) {
+                        0 => format!("let {nn}: any = \"\"; for (const m of {b}) {{ {nn} += String(await m) + \",\"; }}"),
+                        1 => format!("let {nn}: any = \"\"; for (const m of {b}.slice().reverse()) {{ {nn} += String(await m) + \",\"; }}"),
+                        2 => format!("let {nn}: any = String(await {b}[{b}.length - 1]);"),
+                        _ => format!("let {nn}: any = String({b}.length);"),
+                    };
+                    self.declare(&nn, Ty::Str, true);
+                    return Node::leaf(format!("const {b}: any[] = [{}].map(__hm);{junk} {tail}", lits.join(", ")));
                 }
                 92 if self.cfg.f_symbol => {
                     // symbols kept in variables: identity, use as keys, registry
